@@ -102,8 +102,13 @@ DivNegRun(E, c, m, fuel) ==
 DivNegRunS(E, r, fuel) == DivNegRun(E, r.c, r.m, fuel)
 DivOnNegative(k) == DivNegRun(Env(k), Cpu0(k.entry), Mem(k), k.fuel)
 
+(* a value assigned from Python (the harness stored it through the real descriptor and tells the exact scaled
+   integer it should be): the 8 bytes in the map are exactly that integer *)
+Exact(k, o) == ("want" \in DOMAIN o) => RawOf(k, o) = o.want
 FixedVerdictOf(k, f) ==
-    IF ~Exited(f.c) THEN <<"fault", f.c.st, <<>>, {}>>
+    IF ~Exact(k, k.l) \/ ~Exact(k, k.r) THEN
+        <<"wrong", <<"python-side store not exact">>, <<WTrunc(RawOf(k, k.l), 8), WTrunc(RawOf(k, k.r), 8)>>, {}>>
+    ELSE IF ~Exited(f.c) THEN <<"fault", f.c.st, <<>>, {}>>
     ELSE IF ~PreOK(k) THEN <<"skipped", <<>>, <<>>, {}>>
     ELSE IF IsCmp(k) THEN
         (IF MarksOf(k, f) = ExpectedMarks(k) THEN <<"ok", <<>>, MarksOf(k, f), ExpectedMarks(k)>>
